@@ -39,6 +39,19 @@ pub struct Plains {}
 pub struct Grade {}
 
 #[quantity]
+#[unit(Grade_x, "gx")]
+#[unit(GradeB, "gb")]
+#[unit(Grade2, "g2")]
+#[unit(pH, "pH")]
+#[unit(Richter, "R")]
+#[unit(Point_Didot, "pt", "first of two units sharing a symbol, in name order")]
+#[unit(Point_Am, "pt")]
+/// no reference unit; the order of the unit NAMES ("Grade x" < "Grade2" < "GradeB" < "Point Am" <
+/// "Point Didot" < "Richter" < "pH") differs from the order of the variant identifiers
+#[allow(non_camel_case_types)]
+pub struct Scale {}
+
+#[quantity]
 #[unit(Solo_Unit, "su")]
 /// single unit
 pub struct Solo {}
